@@ -156,3 +156,22 @@ Proof.
   apply (validate_complete all_fixed ueq W HR HU); [|exact HI | exact HO].
   apply (wf_fx_transfer current_fixes); [reflexivity | exact HW].
 Qed.
+
+(* ------------------------------------------------------------------ the operand of diff (rule of /repo 49595f2) *)
+
+(** d(1)/dx: the second sibling of diff is a cn, not a ci *)
+Definition w_diff_of_cn : world :=
+  [mkM "m" "" "" []
+     [mk_comp 1 "c" [mk_var 11 "x" "second" "" []; mk_var 12 "y" "second" "" []] []
+        [m_math [m_apply "eq" [m_ci "y";
+                   m_apply "diff" [m_el "bvar" [m_ci "x"];
+                                   Elem MATHML_NS "cn" [(CELLML_2_0_NS, "units", "second")] [Text "1"]]]]] []]].
+Definition w_diff_of_ci : world :=
+  [mkM "m" "" "" []
+     [mk_comp 1 "c" [mk_var 11 "x" "second" "" []; mk_var 12 "y" "second" "" []] []
+        [m_math [m_apply "eq" [m_ci "y"; m_apply "diff" [m_el "bvar" [m_ci "x"]; m_ci "y"]]]] []]].
+
+Lemma w_diff_operand_facts :
+  validate current_fixes ueq_c08 false w_diff_of_cn = [(Error, V_MATH_MATHML)]
+  /\ validate current_fixes ueq_c08 false w_diff_of_ci = [].
+Proof. vm_compute. split; reflexivity. Qed.
